@@ -49,13 +49,15 @@ UNR = lambda *fs: ['%s/UNREACH_%s' % (f, f) for f in fs]
 for t in ATYPS:
     G('da.dt_dadd_d.' + t[3:], 'date-core', 'dt_dadd_d', ARITH, fix={'in_typ': t}, call='dt_dadd_d(d, in_n)', ret='struct dt_d_s',
       replace=['__ymd_add_d', '__yd_add_d', '__ywd_add_d', '__daisy_add_d', '__daisy_to_ldn', '__daisy_to_mdn', '__ldn_to_daisy', '__mdn_to_daisy']
-      + UNR('__jdn_to_daisy', '__daisy_to_jdn', '__ymcw_add_d', '__bizda_add_d'), solvers=SV, sweep={'in_n': '(int)(RND % 40000) - 20000'}, **DN_IN)
+      + UNR('__jdn_to_daisy', '__daisy_to_jdn', '__ymcw_add_d', '__bizda_add_d'), solvers=SV, sweep={'in_n': '(int)(RND % 40000) - 20000'},
+      timeout=1500 if t == 'DT_YWD' else 600, tier='thorough' if t == 'DT_YWD' else 'quick', **DN_IN)
     G('da.dt_dadd_w.' + t[3:], 'date-core', 'dt_dadd_w', ARITH, fix={'in_typ': t}, call='dt_dadd_w(d, in_n)', ret='struct dt_d_s',
       replace=['__ymd_add_w', '__yd_add_w', '__ywd_add_w', '__daisy_add_w', '__daisy_to_ldn', '__daisy_to_mdn', '__ldn_to_daisy', '__mdn_to_daisy']
-      + UNR('__jdn_to_daisy', '__daisy_to_jdn', '__ymcw_add_w', '__bizda_add_w'), solvers=SV, sweep={'in_n': '(int)(RND % 4000) - 2000'}, **DN_IN)
+      + UNR('__jdn_to_daisy', '__daisy_to_jdn', '__ymcw_add_w', '__bizda_add_w'), solvers=SV, sweep={'in_n': '(int)(RND % 4000) - 2000'},
+      timeout=1500 if t == 'DT_YWD' else 600, tier='thorough' if t == 'DT_YWD' else 'quick', **DN_IN)
 G('da.dt_dadd', 'date-core', 'dt_dadd', ARITH, ins=[(U, 'in_typ'), ('uint32_t', 'in_u'), (U, 'in_dt'), ('int', 'in_n')],
   setup='struct dt_d_s d = {DT_DUNK}; d.typ = (dt_dtyp_t)in_typ; d.u = in_u; struct dt_ddur_s dur = {DT_DURUNK}; dur.durtyp = (dt_durtyp_t)in_dt; dur.dv = in_n;',
-  call='dt_dadd(d, dur)', ret='struct dt_d_s', replace=['dt_dadd_d', 'dt_dadd_w'] + UNR('dt_dadd_b', 'dt_dadd_m', 'dt_dadd_y'), solvers=SV,
+  call='dt_dadd(d, dur)', ret='struct dt_d_s', replace=['dt_dadd_d', 'dt_dadd_w'] + UNR('dt_dadd_b', 'dt_dadd_m', 'dt_dadd_y'), solvers=SV, timeout=1800, tier='thorough',
   sweep={'in_typ': 'RND % 12', 'in_dt': '6 + 2 * (RND % 2)', 'in_n': '(int)(RND % 4000) - 2000'})
 
 # dt_ddiff, day differences (DT_DURD)
